@@ -39,14 +39,14 @@ CLAIMED = {
             "packet kind the client can send or retain; replay restarts all three queues at byte 0; CONNECT is the first "
             "I/O and nothing follows a DISCONNECT without the latch; remaining-length and slice wiring; fresh/in-progress "
             "decision tables. Three genuine defects are listed as known findings. The byte stream itself is not produced "
-            "or parsed: these are necessary conditions that hold for every schedule because they quantify over all paths.",
+            "or parsed: these are necessary conditions that hold for every schedule because they quantify over all paths. Also evaluated here because the stream is only well-formed if they hold: Varint::encoded_len agrees with the varint encoder (abstract interpretation), and the arena clauses of C17 (views behind retained bytes, arena writers, compaction, offset/len wiring).",
             "DESIGN.md §4 C01"),
     "C03": ("path-sensitive must-pass (constant-propagated path enumeration) + who-may-mutate census + wiring on mir_built",
             "Static analysis, structural clauses only: every feasible path to the PUBREL enqueue passes the success edge of "
             "the retained-removal and of the PUBREC reason check and carries the PUBREC's identifier; release entries are "
             "removed only by the PUBCOMP arm with that identifier; no order-breaking operation on the release queue; "
             "PUBREL is serialised from the step's identifier and release entries are re-armed for replay. Interleavings of "
-            "several exchanges are covered through these per-entry invariants, not enumerated.",
+            "several exchanges are covered through these per-entry invariants, not enumerated. The PUBCOMP removal takes out exactly the entry it looked up (index provenance: position over the whole list, or over the tail plus one).",
             "DESIGN.md §4 C03"),
     "C04": ("path-sensitive must-pass over the inbound handler arms + wiring + who-may-mutate on mir_built",
             "Static analysis, structural clauses only: in the PUBLISH arm every feasible delivering path (QoS 1) / non-error "
@@ -54,14 +54,14 @@ CLAIMED = {
             "identifier was just recorded, recording only when not already pending; every non-error PUBREL path queues a "
             "PUBCOMP with the table-correct reason and forgets the identifier; acks are serialised off-arena into their own "
             "queue; the reset clears pending identifiers; the delivered message is re-decoded from exactly the consumed prefix "
-            "of the untouched receive buffer with fields passed through. Decoder correctness for arbitrary bytes is C08/C09.",
+            "of the untouched receive buffer with fields passed through. Decoder correctness for arbitrary bytes is C08/C09. The session reset that forgets pending inbound identifiers is placed on the no-session edge, on every path, before the handshake can fail for another reason.",
             "DESIGN.md §4 C04"),
     "C05": ("wiring (expression reconstruction incl. closure captures) + dominance/must-pass on the handshake's mir_built",
             "Static analysis, structural clauses only: clean_start = !session_present and the client id wiring of CONNECT; "
             "session_present is set only by the handshake after reason code and all properties were accepted; the reset runs "
             "exactly on the no-session edge, before anything else in the handshake can fail, clears outbound and inbound "
             "in-flight state and bumps the generation; the ConnectEvent follows session_present; new identifiers are "
-            "allocated only after a successful drain. Broker behaviour is not modelled.",
+            "allocated only after a successful drain. Broker behaviour is not modelled. The re-arm reached from Session::connect resets every entry of every queue unconditionally.",
             "DESIGN.md §4 C05"),
     "C06": ("who-may-write + value-shape matching + path-sensitive must-pass with correlated reason-code tests + "
             "interprocedural dependence (fields touched by the callees of the stored value) on mir_built",
@@ -83,7 +83,7 @@ CLAIMED = {
             "dominate the handshake on every path and connect() has no exit that bypasses the handshake; CONNECT is the first "
             "I/O; the CONNECT scratch must not depend on in-flight state (known finding: it is the arena tail). Because the "
             "resets are unconditional the clause holds for every prior history (all crash points of all operations) without "
-            "enumerating them. Broker behaviour is not modelled.",
+            "enumerating them. Broker behaviour is not modelled. What CONNECT advertises (Receive Maximum, Maximum Packet Size, Session Expiry) is computed from configuration and capacities, never from in-flight state.",
             "DESIGN.md §4 C12"),
     "C13": ("taint of transport byte counts vs. await points (Yield terminators of the pre-transform coroutine MIR) over "
             "the call tree + await-freedom of critical sections",
@@ -91,7 +91,7 @@ CLAIMED = {
             "operations the byte count is committed to session state (or returned to a caller that commits it) before the "
             "next await on every path, so dropping the future at any await loses no progress; allocation..enqueue sections "
             "are await-free; enqueue precedes the first write; progress setters store what they are given. One genuine "
-            "defect (disconnect via write_all) is a known finding. Equality of cancelled and uncancelled runs is not decided.",
+            "defect (disconnect via write_all) is a known finding. Equality of cancelled and uncancelled runs is not decided. The keep-alive's already-queued test sees a PINGREQ in state Write and in state Flush (truth table of the per-entry test).",
             "DESIGN.md §4 C13"),
     "C14": ("sibling agreement of the size predicates + must-pass (path-sensitive where needed) of size checks before "
             "every write/enqueue + wiring of the advertised and the broker limit",
@@ -153,7 +153,7 @@ CLAIMED = {
             "Static analysis, structural clauses only: each link of the chain response_topic/correlation_data -> "
             "response_target -> publication -> correlate/with_correlation -> with_properties keeps exactly the requester's "
             "topic and correlation data; lookups are independent fresh iterations (position independent); owned copies use "
-            "only fallible conversions mapped to BufferTooSmall. Byte-level encoding is C09.",
+            "only fallible conversions mapped to BufferTooSmall. Byte-level encoding is C09. Every property identifier decodes to its own Property variant (nothing else can turn into ResponseTopic / CorrelationData).",
             "DESIGN.md §4 C20"),
     "C08": ("panic-site enumeration over the inbound call graph (MIR Assert terminators + panicking callees) with "
             "guard-dominance re-verification; decode-table extraction vs MQTT 5; shape analysis of the varint reader; "
